@@ -115,6 +115,26 @@ theorem accepted_AddLppd_safe (m : MsgAddLppd) (c : Ctx) (sv : StVals) (s : ESta
   obtain ⟨a, _, b, d, e⟩ := henv
   exact ⟨a, AddLppd_periods_ok m c sv hacc hwt, b, d, e⟩
 
+/-! ### family 1 (user histories) — what is proved and what is not -/
+
+/-- everything the two clp hooks need of a state -/
+def HooksInv (b : BState) (e : EState) (h : Int) : Prop := LpInv b.lp = true ∧ PmtpInvP b.pm h ∧ EInvP e
+
+/-- FULL statement of family 1 for the clp hooks (NOT proved here): the invariants/envelope are preserved
+    by every permissionless message.  `userStep` stands for the message handlers (modelled in
+    Sif/Model/Clp by the lead, not in this property's model).  Known finding F17 (an add to a pool with an
+    empty side resets the pool units) breaks the `provider units ≤ pool units` conjunct of `EInvP`. -/
+def hooks_total_userStatement (userStep : BState × EState → BState × EState → Prop) : Prop :=
+  ∀ (s s' : BState × EState) (h : Int), HooksInv s.1 s.2 h → userStep s s' → HooksInv s'.1 s'.2 h
+
+/-- the proved part: in ANY state satisfying the invariants — however the users got there — both clp
+    hooks of the next block return normally (so a panic needs a state outside `HooksInv`). -/
+theorem hooks_total_user_partial (b : BState) (e : EState) (env : BEnv)
+    (hinv : HooksInv b e env.h) (henv : EnvOKP b.pm env) (hpools : PoolsOKP env.pools) :
+    (∃ o, beginBlock b env = .ok o ∧ LpInv o.st.lp = true ∧ PmtpInvP o.st.pm (env.h + 1)) ∧
+    (∃ e', endBlock e env.h = .ok e') :=
+  ⟨beginBlock_total b env hinv.1 hinv.2.1 henv hpools, endBlock_total e env.h hinv.2.2⟩
+
 /-! ### tie 1: the validation the CODE has (regenerated from the source on every run) contains every
     clause the theorems above rely on — so "the code accepts" implies the `accepts…` hypotheses -/
 
